@@ -1655,8 +1655,15 @@ bool GennaroJareckiKrawczykRabinNTS::Sign
 		for (std::vector<size_t>::iterator it = complaints.begin(); it != complaints.end(); ++it)
 			err << "P_" << *it << " ";
 		err << std::endl;
-		// run reconstruction phases
-		if (!k_dkg->Reconstruct(complaints, u_i, a_ik, rbc, err))
+		// run reconstruction phases; the additive shares $u_i$ of parties
+		// in $QUAL\prime\setminus QUAL$ are part of $k$ and thus of $s$,
+		// hence they are publicly reconstructed as well
+		std::vector<size_t> complaints_k = complaints;
+		for (std::vector<size_t>::iterator it = QUALprime.begin(); it != QUALprime.end(); ++it)
+			if (std::find(QUAL.begin(), QUAL.end(), *it) == QUAL.end())
+				complaints_k.push_back(*it);
+		std::sort(complaints_k.begin(), complaints_k.end());
+		if (!k_dkg->Reconstruct(complaints_k, u_i, a_ik, rbc, err))
 		{
 			err << "P_" << i << ": reconstruction failed" << std::endl;
 			throw false;
@@ -1697,12 +1704,21 @@ bool GennaroJareckiKrawczykRabinNTS::Sign
 			mpz_mod(s_i[*it], s_i[*it], q);
 		}
 		// The protocol outputs signature $(c, s)$ where
-		// $s = \sum_{i\in QUAL} s_i$.
+		// $s = \sum_{i\in QUAL} s_i$ (plus the shares $u_i$ of the parties
+		// that took part in the generation of $k$ only).
 		mpz_set_ui(s, 0L);
 		for (std::vector<size_t>::iterator it = QUAL.begin(); it != QUAL.end(); ++it)
 		{
 			mpz_add(s, s, s_i[*it]);
 			mpz_mod(s, s, q);
+		}
+		for (std::vector<size_t>::iterator it = QUALprime.begin(); it != QUALprime.end(); ++it)
+		{
+			if (std::find(QUAL.begin(), QUAL.end(), *it) == QUAL.end())
+			{
+				mpz_add(s, s, u_i[*it]);
+				mpz_mod(s, s, q);
+			}
 		}
 		err << "P_" << i << ": signature (c, s) = (" << c << ", " << s << ")" << std::endl;
 
